@@ -25,6 +25,12 @@ Hash(x) == (x.s * 7 + x.c * 13 + x.p * 31 + Cardinality(x.mask) * 17 + x.n * 5 +
                ELSE IF x.bind = "numa-balanced" THEN 4 ELSE 5)
             + (CHOOSE v \in x.mask : \A w \in x.mask : v <= w) * 11
             + (CHOOSE v \in x.mask : \A w \in x.mask : v >= w) * 19) % Stride
-Emit == (Hash(cfg) = 0) => PrintT(<<"CASE", ToJson([s |-> cfg.s, c |-> cfg.c, p |-> cfg.p,
+\* always selected: hardware threads > 1 per core, a process mask with holes, and more workers than cores in
+\* the mask (the decoders have to make several passes over partially usable cores)
+Hard(x) == /\ x.p >= 2 /\ x.second = 0
+           /\ \E v \in (CHOOSE a \in x.mask : \A w \in x.mask : a <= w)..(CHOOSE a \in x.mask : \A w \in x.mask : a >= w) : v \notin x.mask
+           /\ (x.threads = "all" \/ (x.threads = "n" /\ x.n > Cardinality({v \div x.p : v \in x.mask})
+                                                     /\ x.n <= Cardinality(x.mask)))
+Emit == (Hash(cfg) = 0 \/ Hard(cfg)) => PrintT(<<"CASE", ToJson([s |-> cfg.s, c |-> cfg.c, p |-> cfg.p,
             mask |-> cfg.mask, threads |-> cfg.threads, n |-> cfg.n, bind |-> cfg.bind, second |-> cfg.second])>>)
 =============================================================================
